@@ -6,16 +6,25 @@ ROOT = os.path.dirname(os.path.dirname(os.path.abspath(__file__)))
 
 BASELINE_OFF = "cd /repo && GOPROXY=off go test -vet=off -count=1 -timeout 25m ./..."
 
-# id -> (category, engine, technique, text, note, design_ref)
-CHECKS = {
- "C14": ("model_checking", "tlc+elk-replay",
-   "TLA+ reference machine (ElkCore) executed by TLC on a bounded-exhaustive program family; every predicted behaviour replayed on the real checker+compiler+VM",
-   "TLC executes the ElkCore CEK machine on every nesting chain of the listed constructs (all chains to depth 2 quick / 3 thorough, sampled deeper) x every exit kind, checks the once-per-exit invariants on every state, and the printed lines + outcome of every program are compared with the real VM run of the emitted Elk text.",
-   "Trusted: TLC/SANY, the Elk emitter (internal/elkcore/emit.go), the observation helpers o/t/p. Bounded: chains up to depth 5, loops of two iterations, short-circuit trees of depth 2.",
-   "DESIGN.md §4 C14"),
-}
+# One file per claimed property: tools/checks/<ID>.json with keys
+# category, engine, technique, text, note, design_ref  (optional: not_applicable_reason instead)
+def load_checks():
+    checks, na = {}, {}
+    d = os.path.join(ROOT, "tools", "checks")
+    for fn in sorted(os.listdir(d)):
+        if not fn.endswith(".json"):
+            continue
+        e = json.load(open(os.path.join(d, fn)))
+        pid = fn[:-5]
+        if "not_applicable_reason" in e:
+            na[pid] = e["not_applicable_reason"]
+        else:
+            checks[pid] = (e["category"], e["engine"], e["technique"], e["text"], e["note"], e["design_ref"])
+    return checks, na
 
-NOT_APPLICABLE = {}
+CHECKS, NOT_APPLICABLE = load_checks()
+
+
 
 def main():
     props = [json.loads(l) for l in open(os.path.join(ROOT, "properties.jsonl"))]
